@@ -197,6 +197,9 @@ func main() {
 	if e.Prop == "C06" {
 		linkTable(e, w, st)
 	}
+	// processor reuse: deterministic two-packet sequences on one processor (all properties, so
+	// that the op stream of every check contains them)
+	seqTable(e, w, st)
 	for i := 0; i < n; i++ {
 		r := vlib.CaseRand(e.Seed, i)
 		now := time.Now()
@@ -342,7 +345,7 @@ func expectProp(mut string) string {
 	case "src-local-ext", "dst-local-notlast", "dst-other-last", "src-other-first", "wrong-sibling",
 		"dummy-hop-spoof", "src-host-kind":
 		return "C05"
-	case "egress-zero-internal", "egress-unknown", "egress-sibling-from-inside":
+	case "egress-zero-internal", "egress-unknown", "egress-sibling-from-inside", "seq-first", "seq-second":
 		return "C06"
 	}
 	return ""
